@@ -443,6 +443,13 @@ def m5(prog: Program, chk: Check) -> None:
             chk.add("M5", u, f"memo {attr}[{norm(key_expr)}] <- {norm(st.value)[:40]}", not missing,
                     f"keyed / validated by {covered}" if not missing else
                     f"the stored value depends on {missing}, which is not part of the key", st)
+        from rules.c20 import _a7_slot_unit
+        for (st, attr, covered, missing) in _a7_slot_unit(u):
+            chk.add("M5", u, f"single-slot memo {attr} <- {norm(st.value)[:40]}", not missing,
+                    f"served only when {covered} agree" if not missing else
+                    f"the remembered tensor depends on {missing}, which is not compared when it is "
+                    f"served again (a raw tensor is handed out where the transformed one was asked "
+                    f"for, or the other way round)", st)
         for (st, attr, mu, written) in _a7b_unit(prog, u):
             chk.add("M5", u, f"memo {attr} vs {mu.qual.split(':')[1]} writing {written}", False,
                     f"{mu.qual.split(':')[1]} rewrites {written}, from which the entries of {attr} "
